@@ -188,14 +188,20 @@ def r3_orientation(rep, ctx):
         for r in rets:
             n += 1
             key = "%s.__lt__:%s" % (cname, norm(ast.unparse(r)))
-            e = r.value
-            if not (isinstance(e, ast.Compare) and len(e.ops) == 1 and isinstance(e.ops[0], (ast.Lt, ast.Gt))):
-                rep.bad("C08.R3", key, "%s.__lt__ does not return a single < comparison" % cname, node=r, fn=fn)
+            # by terms (the comparison may sit in a shared helper or behind a result local)
+            tt = res.term(r.value)
+            talts = alternatives(tt)
+            if not (talts and all(a_[0] == "op" and a_[1] in ("cmp:Lt", "cmp:Gt") and len(a_[2]) == 2 for a_ in talts)):
+                if any(a_[0] == "op" and a_[1].startswith("cmp:") for a_ in talts) or not any(x[0] == "op" and x[1].startswith("cmp:") for a_ in talts for x in walk(a_)):
+                    rep.bad("C08.R3", key, "%s.__lt__ does not return a single < comparison (%s)" % (cname, show(tt, 80)), node=r, fn=fn)
+                else:
+                    raise AnalysisError("%s.__lt__ returns %s: not recognised as one < comparison" % (cname, show(tt, 120)))
                 continue
-            left, right = e.left, e.comparators[0]
-            if isinstance(e.ops[0], ast.Gt):
-                left, right = right, left
-            tl, tr = res.term(left), res.term(right)
+            if len(talts) != 1:
+                raise AnalysisError("%s.__lt__ returns one of several comparisons (%s)" % (cname, show(tt, 120)))
+            tl, tr = talts[0][2]
+            if talts[0][1] == "cmp:Gt":
+                tl, tr = tr, tl
             self_side = all(a == ("field", "_value") or (a[0] == "call" and a[1] in (("field", "GetValue"), ("field", "GetAbstractValue")) and not a[2])
                             or a == ("field", "value") for a in alternatives(tl))
             # right: other.GetValue(<unit of self>)
